@@ -107,3 +107,67 @@ class Reference:
     dlsp = self.proj(-total)[None]
     k_ = self.keep
     return dvor * k_, ddiv * k_, dT * k_, dlsp * k_
+
+
+class ReferenceSW:
+  """Independent weak-form reference for the layered shallow-water equations (vector-invariant form):
+
+      d zeta/dt = -div((zeta+f) v)
+      d delta/dt = k.curl((zeta+f) v) - lap( |v|^2/2 + sum_b D_ab Phi_b + Phi_s )
+      d Phi_a/dt = -div(Phi'_a v) - Phi_ref,a delta_a
+
+  with the pressure coupling written from the physics of stacked immiscible layers (layer 0 on top): the pressure
+  gradient in layer a is grad( sum_{b >= a} Phi_b + sum_{b < a} (rho_b/rho_a) Phi_b ), i.e. D[a,b] = 1 for b >= a
+  (the layer itself and everything below it lift it one-to-one) and rho_b/rho_a for the lighter layers above.
+  (The docstring of shallow_water.get_density_ratios states the transposed matrix; the code implements the physical
+  one - a documentation slip, recorded in DESIGN.md, not a behavioural finding.)  Horizontal derivatives of products
+  are moved onto the analytic test functions; nothing of dinosaur's transform / derivative code is used."""
+
+  def __init__(self, grid, cfg, *, densities, omega, ref_potential, orography_modal=None):
+    assert cfg.get('spacing', 'gauss') == 'gauss' and cfg.get('impl', 'real') == 'real'
+    self.grid = grid
+    self.a = float(grid.radius)
+    self.Y, self.dl, self.dt = grids.analytic_basis(grid, cfg)
+    nlon, nlat = cfg['nlon'], cfg['nlat']
+    mu, wmu = np.polynomial.legendre.leggauss(nlat)
+    if not np.allclose(mu, np.asarray(grid.nodal_axes[1]), atol=1e-13):
+      raise ValueError('latitude nodes are not the Gauss-Legendre nodes')
+    self.w = np.outer(np.full(nlon, 2 * np.pi / nlon), wmu)
+    self.cos2 = (1 - mu ** 2)[None, :]
+    self.sinlat = mu[None, :]
+    L = grid.modal_shape[1]
+    l = np.arange(L, dtype=float)
+    self.lam = -l * (l + 1) / self.a ** 2
+    self.inv_lam = np.where(l > 0, 1.0 / np.where(l > 0, self.lam, 1.0), 0.0)
+    rho = np.asarray(densities, float)
+    n = len(rho)
+    D = np.zeros((n, n))
+    for i in range(n):
+      for j in range(n):
+        D[i, j] = 1.0 if j >= i else rho[j] / rho[i]
+    self.D = D
+    self.omega = omega
+    self.phi_ref = np.asarray(ref_potential, float)
+    self.h = None if orography_modal is None else np.asarray(orography_modal, float)
+    m, ll = grid.modal_mesh
+    self.keep = (grid.mask & (ll <= grid.total_wavenumbers - 2)).astype(float)
+
+  synth = Reference.synth; dlam = Reference.dlam; dth = Reference.dth; proj = Reference.proj
+  wdiv = Reference.wdiv; wcurl = Reference.wcurl
+
+  def tendency(self, vor, div, pot):
+    a = self.a
+    psi = vor * self.inv_lam; chi = div * self.inv_lam
+    U = (self.dlam(chi) - self.dth(psi)) / a            # u cos(lat)
+    V = (self.dlam(psi) + self.dth(chi)) / a            # v cos(lat)
+    eta = self.synth(vor) + 2 * self.omega * self.sinlat
+    phi = self.synth(pot)
+    KE = (U * U + V * V) / (2 * self.cos2)
+    p = jnp.einsum('ab,bml->aml', self.D, pot)
+    if self.h is not None:
+      p = p + self.h
+    dvor = -self.wdiv(U * eta, V * eta)
+    ddiv = self.wcurl(U * eta, V * eta) - self.lam * (self.proj(KE) + p)
+    dpot = -self.wdiv(U * phi, V * phi) - self.phi_ref[:, None, None] * div
+    k_ = self.keep
+    return dvor * k_, ddiv * k_, dpot * k_
